@@ -111,6 +111,11 @@ func (o *OracleC09) BeforeCall(n *Node, st *Step) {
 	if !ok || rm.Lax || rm.PrepReqP == nil || p.H != d.BlockIndex || p.V < d.ViewNumber || int(p.Idx) >= len(d.Validators) {
 		return
 	}
+	// (catching up means from the OTHERS' recovery messages: what a restarted validator does
+	// with an echo of a recovery message it sent itself before the crash is not judged)
+	if int(p.Idx) == d.MyIndex {
+		return
+	}
 	// the receiver: a voting validator with no vote of its own at this height ...
 	if d.MyIndex < 0 || n.flagWO || n.accepted || d.BlockSent() || d.CommitSent() || d.PreCommitSent() {
 		return
@@ -146,7 +151,7 @@ func (o *OracleC09) BeforeCall(n *Node, st *Step) {
 func (o *OracleC09) AfterCall(n *Node, st *Step) {
 	if e := o.recPre; e != nil {
 		o.recPre = nil
-		if d := n.d; d != nil && st.Panic == nil && st.PostBI == st.PreBI && st.PostV == e.V && !n.accepted && !d.BlockSent() && !d.IsPrimary() && (st.PreV == e.V || (!d.ViewChanging() && !d.CommitSent() && !d.PreCommitSent())) {
+		if d := n.d; d != nil && st.Panic == nil && st.PostBI == st.PreBI && st.PostV == e.V && !n.accepted && !d.BlockSent() && !d.IsPrimary() && !d.ViewChanging() && (st.PreV == e.V || (!d.CommitSent() && !d.PreCommitSent())) {
 			// (when the view changes inside the call, an own earlier vote that a restarted validator had in its
 			// cache is replayed first and locks it: that state is legal, observation O7)
 			if !d.RequestSentOrReceived() {
@@ -289,11 +294,17 @@ func (o *OracleC09) AtEnd(s *Sim) {
 			// below the highest one - lost for every later view - and fewer than M honest
 			// validators are left that are not; progress would need the faulty ones' help.
 			honestLockedLower, honestUsable := 0, 0
+			var honestTop byte // the highest view an HONEST validator is in (a restarted faulty one may have run ahead)
+			for _, m := range o.live() {
+				if m.kind == FHonest && m.d != nil && m.d.BlockIndex == minH && m.d.ViewNumber > honestTop {
+					honestTop = m.d.ViewNumber
+				}
+			}
 			for _, m := range o.live() {
 				if m.kind != FHonest || m.d == nil || m.d.BlockIndex != minH {
 					continue
 				}
-				if lv, isLocked := ownLockView(m); isLocked && lv < maxView {
+				if lv, isLocked := ownLockView(m); isLocked && lv < honestTop {
 					honestLockedLower++
 				} else {
 					honestUsable++
